@@ -355,3 +355,46 @@ Definition s_accepts (lhs : str) (all : bool) (expected : list (option (list sva
     | _ => false
     end
   end.
+
+(* ---------------------------------------------------------------------------------------- *)
+(* backends with in-expressions: a query may also have the form  lhs in ("a", "b")  (under `all`:
+   lhs contains-all ("a", "b")), a list of quoted literals. It is read back as the same atoms; a value
+   list can therefore only stand for string values - anything else inside the parentheses (a raw
+   query-expression template, a regular expression) does not read back. *)
+Definition op_in : str := [32; 105; 110; 32; 40].
+Definition op_call : str := [32; 99; 111; 110; 116; 97; 105; 110; 115; 45; 97; 108; 108; 32; 40].
+Fixpoint read_list (fuel : nat) (s : str) : option (list atom) :=
+  match fuel with
+  | O => None
+  | S f =>
+    match s with
+    | c :: s' =>
+      if N.eqb c c_dq then
+        match until_delim c_dq s' with
+        | Some (lit, r) =>
+            if str_eqb r [c_rpar] then Some [AStr lit]
+            else if prefixb [44; 32] r then option_map (cons (AStr lit)) (read_list f (skipn 2 r))
+            else None
+        | None => None
+        end
+      else None
+    | [] => None
+    end
+  end.
+Definition read_query_any (lhs : str) (all : bool) (q : str) : option (list atom) :=
+  let op := lhs ++ (if all then op_call else op_in) in
+  if prefixb op q then read_list (S (length q)) (skipn (length op) q)
+  else read_query lhs (if all then sep_and else sep_or) q.
+Definition s_accepts_in (lhs : str) (all : bool) (expected : list (option (list sval))) (r : outcome str) : bool :=
+  match all_some expected with
+  | None => match r with SigmaErr _ => true | _ => false end
+  | Some groups =>
+    match r with
+    | Ok q => flat_ok all groups &&
+              match read_query_any lhs all q with
+              | Some atoms => atoms_are atoms (concat groups)
+              | None => false
+              end
+    | _ => false
+    end
+  end.
